@@ -889,6 +889,60 @@ pub fn family(name: &str, k: usize) -> Vec<Vec<u8>> {
             }
             vec![t, d]
         }
+        "v9-data-before-templates" | "v9-known-then-data-before-templates" => {
+            // one packet: k one-record data flowsets under k pairwise distinct ids nobody has
+            // defined yet, then one template flowset that defines all k (an exporter that sends
+            // data ahead of its templates); the second form opens with a data flowset of a cached
+            // template so that the walk gets past the first flowset
+            let known = name == "v9-known-then-data-before-templates";
+            let mut pre = v9hdr(1);
+            p16(&mut pre, 0);
+            p16(&mut pre, 12);
+            p16(&mut pre, 60000);
+            p16(&mut pre, 1);
+            p16(&mut pre, 1);
+            p16(&mut pre, 4);
+            let mut d = v9hdr((k + 1 + known as usize) as u16);
+            if known {
+                p16(&mut d, 60000);
+                p16(&mut d, 8);
+                d.extend([9u8; 4]);
+            }
+            for i in 0..k {
+                p16(&mut d, 256 + i as u16);
+                p16(&mut d, 8);
+                d.extend([7u8; 4]);
+            }
+            p16(&mut d, 0);
+            p16(&mut d, (4 + 8 * k) as u16);
+            for i in 0..k {
+                p16(&mut d, 256 + i as u16);
+                p16(&mut d, 1);
+                p16(&mut d, 1 + (i % 2) as u16);
+                p16(&mut d, 4);
+            }
+            if known { vec![pre, d] } else { vec![d] }
+        }
+        "ipfix-data-before-templates" => {
+            // the IPFIX form: k data sets of unknown ids, then one template set defining them
+            let mut body = vec![];
+            for i in 0..k {
+                p16(&mut body, 256 + i as u16);
+                p16(&mut body, 8);
+                body.extend([7u8; 4]);
+            }
+            p16(&mut body, 2);
+            p16(&mut body, (4 + 8 * k) as u16);
+            for i in 0..k {
+                p16(&mut body, 256 + i as u16);
+                p16(&mut body, 1);
+                p16(&mut body, 1 + (i % 2) as u16);
+                p16(&mut body, 4);
+            }
+            let mut d = ixhdr(16 + body.len());
+            d.extend(body);
+            vec![d]
+        }
         "mixed-version-chain" => {
             // k groups of (V5 header, V7 header, V9 header, IPFIX header)
             let mut d = vec![];
@@ -952,6 +1006,9 @@ pub const FAMILIES: &[(&str, usize)] = &[
     ("ipfix-kind-flips", 2048),
     ("ipfix-varlen-data-sets", 8192),
     ("v9-small-data-flowsets-wide-template", 512),
+    ("v9-data-before-templates", 2048),
+    ("v9-known-then-data-before-templates", 2048),
+    ("ipfix-data-before-templates", 2048),
 ];
 
 /// Fill all four caches of a parser with `p` unrelated templates of 64 fields each (ids from 20000
